@@ -710,6 +710,11 @@ func (state *RuntimeState) GetSigned(username string,
 		logger.Debugf(2, "%s for %s", err, username)
 		return false, "", errors.New("inconsistent data coming from DB")
 	}
+	// The expiration_epoch column is not signed: enforce the signed expiration.
+	if storageJWT.Expiration < time.Now().Unix() {
+		logger.Debugf(2, "expired signed data for %s", username)
+		return false, "", nil
+	}
 	return true, storageJWT.Data, nil
 }
 
